@@ -83,32 +83,6 @@ def model_check(ck, tier):
 
 # ------------------------------------------------------------------ MBT ---
 
-_serial = {}
-
-
-def serial_binary():
-    """alloc-only build (`--no-default-features --features serial`) of the one
-    binary this check needs (other binaries of the crate need not build there)."""
-    if "bin" in _serial:
-        return _serial["bin"]
-    hdir = vlib._harness_dir()
-    with vlib.Lock("cargo.lock"):
-        rc, out, err = vlib.run(["cargo", "build", "--release", "--offline", "--no-default-features",
-                                 "--features", "serial", "--target-dir", "target-serial", "--bin", "determinism"],
-                                cwd=hdir, timeout=1800, env={"CARGO_NET_OFFLINE": "true"})
-    if rc != 0:
-        raise vlib.ToolError("serial build of determinism failed:\n" + err[-3000:])
-    _serial["bin"] = os.path.join(hdir, "target-serial", "release", "determinism")
-    return _serial["bin"]
-
-
-def run_serial(stdin):
-    rc, out, err = vlib.run([serial_binary()], stdin=stdin, timeout=3000, cwd=vlib.VERIF)
-    if rc != 0:
-        raise vlib.ToolError("determinism(serial) exited %d:\n%s" % (rc, err[-2000:]))
-    return out
-
-
 def program(n):
     return {"ops": [{"op": "witness", "v": 200, "out": "a"}, {"op": "witness", "v": 77, "out": "b"},
                     {"op": "public", "v": 5, "out": "p"},
@@ -142,10 +116,8 @@ def execute(cfgs):
         if c["mode"] in ("in-process", "concurrent"):
             continue
         one = json.dumps(scen_json(c, i)) + "\n"
-        if c["build"] == "serial":
-            recs = vlib.read_ndjson_text(run_serial(one))
-        else:
-            recs = vlib.read_ndjson_text(vlib.harness("determinism", [], stdin=one, timeout=3000))
+        variant = "serial" if c["build"] == "serial" else "std"     # alloc-only build of this one binary
+        recs = vlib.read_ndjson_text(vlib.harness("determinism", [], stdin=one, timeout=3000, variant=variant))
         if len(recs) != 1:
             raise vlib.ToolError("determinism(%s): no record for %s" % (c["build"], c))
         out.append((c, recs[0]))
@@ -225,8 +197,8 @@ def run(tier):
     if len(cfgs) < 40:
         raise vlib.ToolError("DetScenarios produced %d configurations\n%s" % (len(cfgs), gen.out[-2000:]))
     ck.add_tlc(gen, "DetScenarios", {"tier": tier})
-    vlib.build_harness("std")
-    serial_binary()
+    vlib.build_harness("std", "determinism")
+    vlib.build_harness("serial", "determinism")
     pairs = execute(cfgs)
     n_diff, pids = compare(ck, pairs)
     ck.traces += len(pairs)
